@@ -226,6 +226,8 @@ class ExplorerRunner(SequentialRunner):
         super().__init__(*a, **k)
         self.ops = ops or []
         self.mon = mon
+        self.batched = False
+        self.unsettled: List[Any] = []
 
     def _run(self) -> None:
         sim = self.simulator
@@ -248,6 +250,8 @@ class ExplorerRunner(SequentialRunner):
                 for m in sim.markets:
                     self._match(m)
             elif k == "tick":
+                if self.batched:
+                    self._settle()
                 for _ in range(int(op.get("n", 1))):
                     sim._update_times_on_markets(sim.markets)
                     mon.observe("tick")
@@ -256,10 +260,19 @@ class ExplorerRunner(SequentialRunner):
                 m._is_running = bool(op["v"])
                 mon.rec("Run", m.market_id, bool(op["v"]))
                 mon.probe("running_toggled")
+            elif k == "retick":
+                # a tick-size reform: the public attribute is reassigned while the market lives
+                m = sim.markets[op["m"] % len(sim.markets)]
+                m.tick_size = float(op["tick"])
+                mon.mm[m.market_id].tick = float(op["tick"])
+                mon.rec("Tick", m.market_id, float(op["tick"]))
+                mon.probe("tick_size_changed_mid_run")
             elif k in ("resubmit", "wrong_market", "ghost_cancel", "cancel_wrong_market"):
                 self._op_hostile(op, agents)
             else:
                 raise ValueError(k)
+        if self.batched:
+            self._settle()
 
     def _after_accept(self, market, cont):
         if cont:
@@ -280,11 +293,34 @@ class ExplorerRunner(SequentialRunner):
                 self.mon.ext["forced"] = False
         else:
             logs = market._execution()
+        if self.batched:
+            # a driver that settles several rounds (of several markets) with one call, as a parallel runner would
+            self.unsettled.extend(logs)
+            if self.unsettled:
+                self.mon.ext["unsettled"] = True
+            if len(self.unsettled) >= 6:
+                self._settle()
+            return
         sim._update_agents_for_execution(execution_logs=logs)
         for lg in logs:
             sim.id2agent[lg.buy_agent_id].executed_order(log=lg)
             sim.id2agent[lg.sell_agent_id].executed_order(log=lg)
             sim._trigger_event_after_execution(execution_log=lg)
+        self.mon.observe("match")
+
+    def _settle(self):
+        sim = self.simulator
+        logs, self.unsettled = self.unsettled, []
+        if logs:
+            if len({(lg.market_id, lg.price) for lg in logs}) > 1:
+                self.mon.probe("settled_fills_of_several_prices_in_one_call")
+            sim._update_agents_for_execution(execution_logs=logs)
+            self.mon.ext["unsettled"] = False
+            for lg in logs:
+                sim.id2agent[lg.buy_agent_id].executed_order(log=lg)
+                sim.id2agent[lg.sell_agent_id].executed_order(log=lg)
+                sim._trigger_event_after_execution(execution_log=lg)
+        self.mon.ext["unsettled"] = False
         self.mon.observe("match")
 
     def _op_add(self, op, agents):
@@ -404,6 +440,7 @@ def run_B(scn: Dict[str, Any], on, plugins=()) -> Dict[str, Any]:
     res["phase"] = "setup"
     runner = ExplorerRunner(settings=cfg, prng=random.Random(scn["runner_seed"]), logger=logger,
                             simulator_class=classes["TapSimulator"], ops=scn["ops"], mon=mon)
+    runner.batched = scn.get("settle") == "batched"
     for c in classes.values():
         runner.class_register(c)
     try:
